@@ -15,16 +15,16 @@ package job
 //@ fieldspec job.Runner.runner JobRunnerFn
 
 // C06: a job is reported as terminated only after its runner function succeeded ...
-//@ chanmsg in Runner[JOB]).Run: terminatedJobs: jobDone[deref(m)]      // C06 C05 C07
+//@ chanmsg in Runner[JOB]).Run: terminatedJobs: jobDone[deref(m)]      // C06 C05 C07 C16 C02 C10 C11
 // ... and only jobs reported that way get their Terminated() callback (which acknowledges the writes)
 //@ iface job.Job.Terminated
-//@   requires jobDone[recv]      // C06 C05 C07
+//@   requires jobDone[recv]      // C06 C05 C07 C16 C02 C10 C11
 //@   pure
 
 // the worker: takes jobs, runs them, panics on error (never reports a failed job)
 // (C05: a batch the store refused is never reported as done: the process stops, and the chain is rebuilt from the store)
 //@ func (*job.Runner[JOB]).Run$2
-//@   property C06 C05 C07
+//@   property C06 C05 C07 C16 C02 C10 C11
 // the dispatcher loop
 //@ func (*job.Runner[JOB]).Run
-//@   property C06 C05 C07
+//@   property C06 C05 C07 C16 C02 C10 C11
